@@ -89,21 +89,25 @@ class Creators:
         gfa_line = gfapy.Line(gfa_line, dialect=self._dialect)
       gfa_line.connect(self)
     elif rt == "H":
-      self._n_input_header_lines += 1
       if isinstance(gfa_line, str):
         gfa_line = gfapy.Line(gfa_line, vlevel=self._vlevel,
             dialect=self._dialect)
-      self.header._merge(gfa_line)
+      version = None
       if gfa_line.VN:
         if gfa_line.VN == "1.0":
-          self._version = "gfa1"
+          version = "gfa1"
         elif gfa_line.VN == "2.0":
-          self._version = "gfa2"
+          version = "gfa2"
         else:
-          self._version = gfa_line.VN
+          version = gfa_line.VN
+        if self._vlevel > 0 and version not in gfapy.VERSIONS:
+          raise gfapy.VersionError(
+            "GFA specification version {} not supported".format(version))
+      self.header._merge(gfa_line)
+      self._n_input_header_lines += 1
+      if version is not None:
+        self._version = version
         self._version_explanation = "specified in header VN tag"
-        if self._vlevel > 0:
-          self._validate_version()
         self.process_line_queue()
     elif rt == "S":
       if isinstance(gfa_line, str):
@@ -142,13 +146,13 @@ class Creators:
         "Cannot add instance of incompatible line type "+
         str(type(gfa_line)))
     if gfa_line.record_type == "H":
-      self._n_input_header_lines += 1
       if self._vlevel > 0 and gfa_line.VN and gfa_line.VN != "1.0":
         raise gfapy.VersionError(
           "Header line specified wrong version ({})\n".format(gfa_line.VN)+
           "Line: {}\n".format(gfa_line)+
           "File version: 1.0 ({})".format(self._version_explanation))
       self.header._merge(gfa_line)
+      self._n_input_header_lines += 1
     elif gfa_line.record_type == "S":
       if gfa_line.version == "gfa2":
         raise gfapy.VersionError(
@@ -176,13 +180,13 @@ class Creators:
         "Cannot add instance of incompatible line type "+
         str(type(gfa_line)))
     if gfa_line.record_type == "H":
-      self._n_input_header_lines += 1
       if self._vlevel > 0 and gfa_line.VN and gfa_line.VN != "2.0":
         raise gfapy.VersionError(
           "Header line specified wrong version ({})\n".format(gfa_line.VN)+
           "Line: {}\n".format(gfa_line)+
           "File version: 2.0 ({})".format(self._version_explanation))
       self.header._merge(gfa_line)
+      self._n_input_header_lines += 1
     elif gfa_line.record_type == "S":
       if gfa_line.version == "gfa1":
         raise gfapy.VersionError(
